@@ -213,6 +213,31 @@ def props_or_all(props, m):
     return set(m.meta) if props is None else set(props)
 
 
+
+def disturb_clone(clone, m2, pa, m, rng, log):
+    """A clone is an independent array: removing one of its properties (or
+    extending its output list) must leave the array it came from as it was."""
+    before = list(pa.output_property_arrays)
+    cands = [p for p in clone.output_property_arrays
+             if p in m2.meta and p not in ('uid', 'tag', 'gid', 'pid', 'x',
+                                           'y', 'z', 'h', 'm')]
+    if cands and rng.random() < 0.6:
+        p = str(cands[int(rng.integers(len(cands)))])
+        log.append(('clone.remove_property', p))
+        clone.remove_property(p)
+    extra = [p for p in m2.meta if p not in clone.output_property_arrays and
+             p in clone.properties]
+    if extra and rng.random() < 0.6:
+        p = str(extra[int(rng.integers(len(extra)))])
+        log.append(('clone.add_output_arrays', p))
+        clone.add_output_arrays([p])
+    compare(pa, m, 'source array after operations on its clone')
+    if list(pa.output_property_arrays) != before:
+        raise Mismatch('clone-aliasing', 'operations on a clone changed the '
+                       'output-array list of the array it came from: %s -> '
+                       '%s' % (before, list(pa.output_property_arrays)))
+
+
 class Driver(object):
     """Generates and applies one random operation to (pa, model)."""
 
@@ -333,6 +358,7 @@ class Driver(object):
                 props, m) else np.full(1, m2.meta[p]['default'], dtype=NPT[
                     m2.meta[p]['type']])) for p in m2.meta}
         compare(out, m2, 'result of extract_particles', aligned=True)
+        disturb_clone(out, m2, pa, m, rng, log)
         return None
 
     def op_append_parray(self, pa, m, n, rng, log):
@@ -576,6 +602,7 @@ class Driver(object):
             m2.meta = restrict_meta(m, props)
             m2.output = [p for p in m.output if p in props]
         compare(c, m2, 'result of empty_clone')
+        disturb_clone(c, m2, pa, m, rng, log)
         return None
 
     def op_copy_properties(self, pa, m, n, rng, log):
